@@ -1,0 +1,26 @@
+//go:build verif
+
+package tracing
+
+// Assumed contracts: the tracing layer has no effect on the state the
+// verified properties speak about (listed as trusted in every evidence file that uses them).
+
+//@ func (*TracerComponent).StartOpTelemeteryHandler
+//@ trusted
+//@ modifies nothing
+
+//@ func (*opTelemetryHandler).RootContext
+//@ trusted
+//@ modifies nothing
+
+//@ func (*opTelemetryHandler).Finish
+//@ trusted
+//@ modifies nothing
+
+//@ func NewObserverLabels
+//@ trusted
+//@ modifies nothing
+
+//@ func (*TracerComponent).NewListenerTracerComponent
+//@ trusted
+//@ modifies nothing
